@@ -151,6 +151,10 @@ def gen_desc(rng):
     else:
         d.update({'override': rng.random() < 0.3,
                   'init': rng.choice(['', '', 'default', 'delete', '0'])})
+    if d.get('params') and rng.random() < 0.2:
+        # the description is completed in place after it has been rendered once (a preview, a
+        # log line): the last parameter is appended to the object's own parameter list
+        d['staged'] = True
     return d
 
 
@@ -371,7 +375,13 @@ def check_desc(d):
                              or d['init'] or d.get('explicit') or d.get('override'))
     outside = outside_documented_domain(d)
     try:
-        obj = build_desc(d)
+        if d.get('staged') and d.get('params'):
+            obj = build_desc(dict(d, params=d['params'][:-1]))
+            _ = obj.as_decl, obj.as_def
+            obj.params.append(build_param(d['params'][-1]))
+            bump('descriptions_completed_in_place_after_rendering')
+        else:
+            obj = build_desc(d)
         decl, dfn = obj.as_decl, obj.as_def
     except Exception as exc:  # pylint: disable=broad-except
         info = common.classify_exception(exc)
@@ -1308,7 +1318,7 @@ def main(tier: str) -> int:
                 'descriptions_ctor', 'descriptions_dtor', 'blocks_namespace', 'blocks_struct',
                 'blocks_class', 'blocks_section', 'namespace_empty_ids', 'misc_comparisons',
                 'contents_form_comment', 'contents_form_headed', 'contents_form_nested',
-                'contents_handed_over_then_filled',
+                'contents_handed_over_then_filled', 'descriptions_completed_in_place_after_rendering',
                 'tus_compiled', 'classes_compiled', 'compiler_invocations_g++')
     for _item, res in run.pmap(_worker, items, chunksize=1, timeout=900):
         absorb_batch(run, res)
